@@ -241,6 +241,179 @@ def wide_set_product(o, templates_fn, suffix=None, sizes=WIDE):
                 o.end()
 
 
+# ---------------------------------------------------------------------------- bit-width boundaries
+
+BOUND = ((64, 63), (64, 64), (300, 65), (300, 257))
+
+
+def boundary_cases(o, fams):
+    """containers whose length or capacity sits on a bit-width boundary — 63, 64, 65 and 257 entries, a
+    capacity of exactly 64, completely full — for the operation families `fams`
+    (d dictionary, e entry API, g get_disjoint_mut, q clone / ==, s Set operations, i borrowing iterators,
+    c consuming iterators and drain, b bulk construction).  Bookkeeping in one machine word (a 64-bit mask
+    of slots, `1 << len`), 8-bit slot indices and block-wise scans go wrong exactly here; the layouts of
+    the products stop at 9 entries and the big-map cases sit at 300 of 300."""
+    for cap, L in BOUND:
+        P = sorted({0, 1, 7, 8, 31, 32, 62, 63, 64, 255, 256, L - 2, L - 1} & set(range(L)))
+        few = sorted({0, 63, 64, 256, L - 1} & set(range(L)))
+        absent = L
+        heavy = L > 100
+        for rem in ((False,) if heavy else (False, True)):
+            def start(regs="m", m1cap=None):
+                o.case(m0=cap if "m" in regs else 0, m1=(m1cap if m1cap is not None else cap) if "m" in regs else 0,
+                       s0=cap if "s" in regs else 0, s1=cap if "s" in regs else 0, tag="b")
+                for c in range(L):
+                    if "m" in regs:
+                        o.op(f"m0 insert {o.k(c)} {o.id()}#{c % 7}")
+                    if "s" in regs:
+                        o.op(f"s0 insert {o.k(c)}")
+                if rem:
+                    # swap-remove in slot 1 (the last entry moves there), then the removed key comes back last
+                    if "m" in regs:
+                        o.op("m0 remove q:1#0")
+                        o.op(f"m0 insert {o.k(1)} {o.id()}#1")
+                    if "s" in regs:
+                        o.op("s0 remove q:1#0")
+                        o.op(f"s0 insert {o.k(1)}")
+
+            def look(reg="m0"):
+                o.op(f"{reg} len")
+                for c in few + [absent]:
+                    o.op(f"{reg} get_key_value q:{c}#0" if reg == "m0" else f"{reg} get q:{c}#0")
+
+            if "d" in fams:
+                start()
+                for c in P + [absent]:
+                    for p in (f"q:{c}#0", f"k:{c}#0"):
+                        for kind in ("get", "get_key_value", "contains_key", "index"):
+                            o.op(f"m0 {kind} {p}", test=True)
+                        o.op(f"m0 get_mut {p} 3", test=True)
+                        o.op(f"m0 index_mut {p} 2", test=True)
+                o.op("m0 len")
+                o.end()
+                for c in few + [absent]:
+                    for tmpl in (f"m0 insert {{k{c}}} {{v}}", f"m0 insert_key_value {{k{c}}} {{v}}",
+                                 f"m0 checked_insert {{k{c}}} {{v}}", f"m0 remove q:{c}#0", f"m0 remove_entry k:{c}#0"):
+                        start()
+                        o.op(inst(o, tmpl), test=True)
+                        look()
+                        o.end()
+                for tmpl in ("m0 retain 87381 1", "m0 retain 5 0", "m0 clear"):
+                    start()
+                    o.op(tmpl, test=True)
+                    look()
+                    o.end()
+            if "e" in fams:
+                for c in few + [absent]:
+                    for mods, fin in (("[1]", "oi:{v}"), ("[]", "o.get"), ("[2]", "o.get_mut:2"), ("[]", "o.insert:{v}"),
+                                      ("[]", "o.remove"), ("[]", "o.remove_entry"), ("[]", "o.key"), ("[]", "key"),
+                                      ("[]", "v.insert:{v}"), ("[1,2]", "od:{v0}")):
+                        start()
+                        o.op(inst_fin(o, f"m0 entry {{k{c}}} {mods} {fin}"), test=True)
+                        look()
+                        o.end()
+            if "g" in fams:
+                tups = [[63, 62], [L - 1, 0], [0, L - 1, 63], [absent, 63, 7], [63, 63], [7, absent, 7]]
+                if L > 64:
+                    tups += [[64, 63], [63, 64, 0], [64, 64]]
+                if L > 256:
+                    tups += [[256, 255], [255, 256, 0], [256, 0, 256]]
+                for name in (["gdm", "gdum"] if "u" in fams else ["gdm"]):
+                    for tup in tups:
+                        if name == "gdum" and (len(set(tup)) != len(tup)):
+                            continue
+                        start()
+                        ks = ",".join(f"q:{c}#0" for c in tup)
+                        o.op(f"m0 {name} 1 [{ks}]", test=True)
+                        for c in tup:
+                            o.op(f"m0 get_mut q:{c}#0 0")
+                        o.end()
+            if "q" in fams:
+                for m1cap in ((cap,) if heavy else (cap, 300 if cap == 64 else 64)):
+                    if m1cap < L:
+                        continue
+                    start("ms", m1cap)
+                    o.op("m0 clone m1", test=True) if m1cap == cap else [
+                        o.op(f"m1 insert {o.k(c)} {o.id()}#{c % 7}") for c in reversed(range(L))]
+                    o.op("m0 eq m1", test=True)
+                    o.op("m1 eq m0", test=True)
+                    o.op("m0 eq m0", test=True)
+                    o.op(f"m1 get_mut q:{L - 1}#0 5")
+                    o.op("m0 eq m1", test=True)
+                    o.op("m1 eq m0", test=True)
+                    o.op(f"m1 remove q:{L - 1}#0")
+                    o.op("m0 eq m1", test=True)
+                    o.op("m1 eq m0", test=True)
+                    if m1cap == cap:
+                        o.op("s0 clone s1", test=True)
+                        o.op("s0 eq s1", test=True)
+                        o.op("s1 eq s0", test=True)
+                        o.op(f"s1 remove q:{L - 1}#0")
+                        o.op("s0 eq s1", test=True)
+                        o.op("s1 eq s0", test=True)
+                        o.op("m0 clone_from m1", test=True)
+                        o.op("m0 eq m1", test=True)
+                        o.op("m1 len")
+                    o.end()
+            if "s" in fams:
+                start("s")
+                for c in P + [absent]:
+                    for p in (f"q:{c}#0", f"k:{c}#0"):
+                        o.op(f"s0 contains {p}", test=True)
+                        o.op(f"s0 get {p}", test=True)
+                o.end()
+                for c in few + [absent]:
+                    for tmpl in (f"s0 insert {{k{c}}}", f"s0 replace {{k{c}}}", f"s0 remove q:{c}#0", f"s0 take k:{c}#0"):
+                        start("s")
+                        o.op(inst(o, tmpl), test=True)
+                        look("s0")
+                        o.end()
+            if "a" in fams and not heavy:
+                for kind in ("union", "intersection", "difference", "symmetric_difference"):
+                    start("s")
+                    for c in list(range(L - 3, L + 2)):
+                        o.op(f"s1 insert {o.k(c)}")
+                    o.op(f"s0 alg {kind} s1 hxf", test=True)
+                    o.op(f"s1 alg {kind} s0 nnhf", test=True)
+                    for pred in ("is_subset", "is_superset", "is_disjoint"):
+                        o.op(f"s0 {pred} s1", test=True)
+                        o.op(f"s1 {pred} s0", test=True)
+                    o.end()
+            if "i" in fams:
+                start("ms")
+                for kind in ("iter", "keys", "values", "iter_mut", "values_mut"):
+                    o.op(f"m0 iter {kind} 1 lhnlhx", test=True)
+                    o.op(f"m0 iter {kind} 0 nnz", test=True)
+                    o.op(f"m0 iter {kind} 0 t9t9t9t9t9t9t9nlh", test=True)
+                o.op("s0 iter lhnlhx", test=True)
+                o.op("s0 iter nnz", test=True)
+                o.end()
+            if "c" in fams:
+                for line in (f"m0 drain {L + 1} drop", "m0 drain 2 drop", "m0 drain 1 forget", f"m0 into_iter pairs {L + 1} drop",
+                             "m0 into_iter keys 2 drop", "m0 into_iter values t9 count", "m0 into_iter pairs z drop",
+                             "m0 drain tM drop"):
+                    start()
+                    o.op(line, test=True)
+                    o.op("m0 len")
+                    o.op(f"m0 insert {o.k(3)} {o.v()}")
+                    look()
+                    o.end()
+            if "b" in fams and not rem:
+                for pulls in ((0, 1, 3) if L == cap else (1, 3)):
+                    o.case(m0=cap, m1=cap, s0=cap, s1=cap, tag="b")
+                    xs = ",".join(f"{o.k(c)}={o.id()}#{c % 7}" for c in range(L))
+                    o.op(f"m0 from_iter {pulls} [{xs}]", test=True)
+                    look()
+                    if pulls != 0:
+                        ys = ",".join(f"{o.k(c)}={o.id()}#{c % 5}" for c in list(range(L)) + [63, 0, L - 1])
+                        o.op(f"m0 from_iter {pulls} [{ys}]", test=True)
+                        look()
+                        zs = ",".join(f"{o.k(c)}" for c in list(range(L)) + [63, 0, L - 1])
+                        o.op(f"s0 extend {pulls} [{zs}]", test=True)
+                        look("s0")
+                    o.end()
+
+
 # ---------------------------------------------------------------------------- random sequences
 
 def random_map_seq(o, rng, n, length, u, with_iters=True, with_forget=True, unsafe_ok=False,
@@ -875,9 +1048,9 @@ def gen_C09(o, rng, tier):
                         o.op(f"m0 iter {kind} 0 {'n' * k}c{'n' * (len(lay) - k + 1)}", test=True)
                         o.op(f"m0 iter {kind} 0 {'n' * k}x", test=True)
                         # std's provided methods: nth(j) and last() after k steps
-                        o.op(f"m0 iter {kind} 0 {'n' * k}zn", test=True)
+                        o.op(f"m0 iter {kind} 2 {'n' * k}zn", test=True)     # mutable kinds: only the item received is written
                         for j in range(0, len(lay) - k + 2):
-                            o.op(f"m0 iter {kind} 0 {'n' * k}t{j}lhnl", test=True)
+                            o.op(f"m0 iter {kind} 3 {'n' * k}t{j}lhnl", test=True)
                     sweep(o, "m0", u)
                 full = "lh" + "nlh" * (len(lay) + 2)
                 o.op(f"s0 iter {full}", test=True)
